@@ -143,7 +143,8 @@ def tlc_phase(chk, tier, known_map, known_txn, skip_mc=False):
             map_consts(cfgs, ops, kinds, thinks, dev=known_map), f"gen{i}", small, dump=True, key=f"{cfgs} {ops}")
     for i, (ntx, mo, levels) in enumerate(tgen):
         job("tgen", f"Txn behaviour enumeration NTx={ntx} MaxOpsTx={mo} {levels}", "Txn.tla",
-            txn_consts(ntx, mo, levels, known_txn), f"tgen{i}", small, view="View", dump=True, ntx=ntx,
+            txn_consts(ntx, mo, levels, known_txn), f"tgen{i}", 1, view="View", dump=True, ntx=ntx,   # 1 worker:
+            # with a VIEW the event log kept for a state depends on the search order; BFS with one worker is fixed
             key=f"{ntx}x{mo} {levels}")
     results = run_jobs(jobs, pool=4 if tier == "quick" else 3)
 
@@ -182,6 +183,9 @@ def tlc_phase(chk, tier, known_map, known_txn, skip_mc=False):
                 n += 1
             chk.extra.setdefault("txn_behaviours", {})[j["key"]] = n
             (wd / "states.dump").unlink(missing_ok=True)
+    # TLC writes dump files in a worker-dependent order: canonical order before any seeded sampling
+    progs.sort(key=lambda p: json.dumps([p["cfg"], p["scripts"]], sort_keys=True))
+    behs.sort(key=lambda b: json.dumps([b["level"], b["ntx"], b["ev"]]))
     return progs, behs
 
 
